@@ -327,7 +327,7 @@ class CSSStyleDeclaration(CSS2Properties, css_parser.util.Base2):
             # closed before the next ; ends the ignored part
             ignored = self._valuestr(
                 self._tokensupto2(tokenizer, starttoken=token,
-                                  propertyvalueendonly=True))
+                                  semicolon=True))
             self._log.error('CSSStyleDeclaration: Unexpected token, ignoring '
                             'upto %r.' % ignored, token)
             # does not matter in this case
